@@ -2,7 +2,6 @@
 //! mock transport (real decoder, real 5 s / 60 s timeouts on tokio's paused clock).
 use std::collections::HashMap;
 use std::net::{IpAddr, Ipv4Addr, Ipv6Addr, SocketAddr};
-use std::panic::{catch_unwind, AssertUnwindSafe};
 use std::sync::{Arc, Mutex};
 use std::time::Duration;
 
@@ -169,31 +168,31 @@ pub fn run_scenario(sc: &Scenario, out: &mut Out, cmd: &str) {
     let (is_recursive, pm, port, fwd) = match &sc.mode {
         Mode::Auth => (false, ProtocolMode::OnlyV4, 53, None),
         Mode::Rec(p, port) => (true, *p, *port, None),
-        Mode::Fwd(sa) => (true, ProtocolMode::OnlyV4, 53, Some(*sa)),
+        Mode::Fwd(sa) => (true, ProtocolMode::OnlyV4, 5353, Some(*sa)), // the recursive port must not leak into forwarding
     };
-    let rt = tokio::runtime::Builder::new_current_thread().enable_time().start_paused(true).build().unwrap();
-    let outcome = catch_unwind(AssertUnwindSafe(|| {
-        rt.block_on(async {
+    let (zones_c, cache_c, question_c) = (sc.zones.clone(), cache.clone(), sc.question.clone());
+    let any_q = sc.question.qtype == QueryType::Wildcard;
+    let log_c = log.clone();
+    // the whole resolution runs under a watchdog: a resolver that spins in synchronous code (where no
+    // tokio timeout can fire) shows up as `hang` for exactly this scenario
+    let text = crate::watch::text(30, move || {
+        let rt = tokio::runtime::Builder::new_current_thread().enable_time().start_paused(true).build().unwrap();
+        let (res, elapsed) = rt.block_on(async {
             let start = tokio::time::Instant::now();
             let (_metrics, res) =
-                dns_resolver::resolve(is_recursive, pm, port, fwd, &sc.zones, &cache, &sc.question).await;
+                dns_resolver::resolve(is_recursive, pm, port, fwd, &zones_c, &cache_c, &question_c).await;
             (res, start.elapsed().as_millis())
-        })
-    }));
+        });
+        let l = log_c.lock().unwrap();
+        format!(
+            "{} # {} # {} # {}",
+            result_text(&res, any_q),
+            if l.is_empty() { "-".to_string() } else { l.join(";") },
+            elapsed,
+            dump_text(&cache_c.verif_dump())
+        )
+    });
     verif::set_transport(None);
-    let text = match outcome {
-        Err(_) => "panic".to_string(),
-        Ok((res, elapsed)) => {
-            let l = log.lock().unwrap();
-            format!(
-                "{} # {} # {} # {}",
-                result_text(&res, sc.question.qtype == QueryType::Wildcard),
-                if l.is_empty() { "-".to_string() } else { l.join(";") },
-                elapsed,
-                dump_text(&cache.verif_dump())
-            )
-        }
-    };
     let zones = if sc.zone_specs.is_empty() { "-".to_string() } else { sc.zone_specs.join("^") };
     let script = if sc.script.is_empty() {
         "-".to_string()
